@@ -189,6 +189,13 @@ func C23History(seed int64) *TrigHistory {
 		}
 		h.Trigs = append(h.Trigs, tr)
 	}
+	// mostly also a BEFORE trigger that assigns NEW (what it assigns is what must be stored)
+	if r.Intn(10) < 7 {
+		n++
+		col := 2 + r.Intn(2)
+		h.Trigs = append(h.Trigs, Trigger{Name: fmt.Sprintf("tr%d", n), TID: n, Event: []string{"insert", "update"}[r.Intn(2)], Timing: "before",
+			Body: TrigBody{K: "set", Col: col, E: sqlast.Op("plus", sqlast.Fn("coalesce", nw(col), lit(0)), lit(1+r.Intn(2)))}})
+	}
 	cols := []int{1, 2, 3}
 	val := func(c int) sqlast.Value {
 		if c != 1 && !t.Cols[c-1].NotNull && r.Intn(8) == 0 {
